@@ -437,6 +437,11 @@ class ActionPrebuilder(xtuml.tools.Walker):
     
     def find_symbol(self, node, name):
         # TODO: introduce a new keyword SENDER, and SenderAccessNode?
+        if name.lower() in ['self', 'sender']:
+            # keywords are case insensitive; the implicit variables are 
+            # installed in lower case
+            name = name.lower()
+        
         v_var = self.symtab.find_symbol(name)
         if not v_var and name.lower() == 'sender':
             v_trn = self.v_trn(node, 'sender')
